@@ -785,7 +785,8 @@ func (in *instr) selectStmt(s *ast.SelectStmt) []ast.Stmt {
 	if def != nil {
 		fmt.Fprintf(&sb, "case %d:\n", n)
 	}
-	fmt.Fprintf(&sb, "}\n")
+	// keeps the rewritten statement "terminating" when the original select was
+	fmt.Fprintf(&sb, "default:\npanic(\"vinstr: unreachable select outcome\")\n}\n")
 	st := in.parseStmts(sb.String(), s)
 	sw := st[len(st)-1].(*ast.SwitchStmt)
 	for i, k := range cases {
